@@ -395,6 +395,16 @@ class Evaluator:
             if is_gen:
                 self._yields.pop()
 
+    def call_value(self, f: AV, args: list) -> AV:
+        if f.kind == 'func' and isinstance(f.val, tuple):
+            if f.val[0] == 'closure':
+                return self.call_closure(f.val, args)
+            if f.val[0] == 'lambda':
+                return self.call_lambda(f.val, args)
+            if f.val[0] == 'native':
+                return f.val[1](args)
+        raise Unknown('call of an unknown function value')
+
     def call_lambda(self, lam, args: list) -> AV:
         _, node, outer = lam
         a = node.args
@@ -473,6 +483,9 @@ class Evaluator:
             txt = ast.unparse(node)
             if txt in getattr(self, 'text_attrs', {}):
                 return self.text_attrs[txt]
+            cc = getattr(self, 'class_consts', {})
+            if isinstance(node.value, ast.Name) and node.value.id in ('self', 'cls') and node.attr in cc:
+                return self.ev(cc[node.attr], {})            # a class-level constant of the copy
             if txt in ('datetime.date', 'datetime.datetime', 'self.EmptyCell', 'self.__class__', 'date_parser.ParserError'):
                 return AV('other', val=('class', {'datetime.date': 'date', 'datetime.datetime': 'datetime',
                                                   'self.EmptyCell': 'EmptyCell', 'self.__class__': 'EmptyCell'}.get(txt, txt)))
@@ -620,6 +633,14 @@ class Evaluator:
             return to_str(self.ev(node.args[0], env))
         if name == 'bool':
             return const_av(truth(self.ev(node.args[0], env)))
+        if name in ('filter', 'map') and len(node.args) == 2:
+            fv, seq = self.ev(node.args[0], env), self.ev(node.args[1], env)
+            if seq.items is None:
+                raise Unknown(name)
+            if name == 'filter':
+                keep = [x for x in seq.items if (truth(x) if fv.kind == 'none' else truth(self.call_value(fv, [x])))]
+                return AV('list', items=tuple(keep))
+            return AV('list', items=tuple(self.call_value(fv, [x]) for x in seq.items))
         if name == 'range' and 1 <= len(node.args) <= 3:
             vs = [self.ev(a, env) for a in node.args]
             if not all(isinstance(v.val, int) and not isinstance(v.val, bool) for v in vs):
@@ -724,7 +745,43 @@ class Evaluator:
                 args = [self.ev(a, env) for a in node.args]
                 origin = next((a.origin for a in args if a.origin), '')
                 return AV('datetime', val='midnight' if len(node.args) == 3 or txt.endswith('combine') else None, origin=origin)
+            if txt == 're.compile' and node.args and isinstance(node.args[0], ast.Constant) and isinstance(node.args[0].value, str):
+                import re as _re
+                flags = 0
+                for fl in node.args[1:] + [k.value for k in node.keywords if k.arg == 'flags']:
+                    for nm in ast.walk(fl):
+                        if isinstance(nm, ast.Attribute) and hasattr(_re, nm.attr):
+                            flags |= getattr(_re, nm.attr)
+                return AV('regex', val=('regex', node.args[0].value, flags))
+            if txt in ('re.match', 're.fullmatch', 're.search') and len(node.args) >= 2 and isinstance(node.args[0], ast.Constant) and \
+                    isinstance(node.args[0].value, str):
+                subj = self.ev(node.args[1], env)
+                if subj.kind != 'str':
+                    raise AbsRaise('TypeError', 'expected string')
+                if not isinstance(subj.val, str):
+                    raise Unknown('regex on a text without a concrete carrier')
+                import re as _re
+                flags = 0
+                for fl in node.args[2:] + [k.value for k in node.keywords if k.arg == 'flags']:
+                    for nm in ast.walk(fl):
+                        if isinstance(nm, ast.Attribute) and hasattr(_re, nm.attr):
+                            flags |= getattr(_re, nm.attr)
+                m_ = getattr(_re, txt[3:])(node.args[0].value, subj.val, flags)
+                return AV('other', val=('match', txt)) if m_ else AV('none')
             recv = self.ev(f.value, env)
+            if recv.kind == 'regex' and f.attr in ('match', 'fullmatch', 'search') and node.args:
+                subj = self.ev(node.args[0], env)
+                if subj.kind != 'str':
+                    raise AbsRaise('TypeError', 'expected string')
+                if not isinstance(subj.val, str):
+                    raise Unknown('regex on a text without a concrete carrier')
+                import re as _re
+                m_ = getattr(_re.compile(recv.val[1], recv.val[2]), f.attr)(subj.val)
+                return AV('other', val=('match', f.attr)) if m_ else AV('none')
+            if recv.kind == 'str' and f.attr in ('startswith', 'endswith') and isinstance(recv.val, str) and len(node.args) == 1:
+                a0 = self.ev(node.args[0], env)
+                if isinstance(a0.val, str):
+                    return const_av(getattr(recv.val, f.attr)(a0.val))
             if recv.kind == 'dict' and recv.items is not None and f.attr == 'get' and 1 <= len(node.args) <= 2:
                 k = self.ev(node.args[0], env)
                 default = self.ev(node.args[1], env) if len(node.args) == 2 else AV('none')     # arguments are evaluated first
@@ -864,3 +921,22 @@ class Evaluator:
 
 def names_in_list(node, names=('float', 'int')):
     return isinstance(node, ast.List) and all(isinstance(e, ast.Name) for e in node.elts)
+
+
+def evaluator_for(cp, hooks=None, max_depth: int = 8) -> Evaluator:
+    """an evaluator for the members of one runtime copy that also knows the class-level and module-level constants of that copy"""
+    ev = Evaluator(cp.members, hooks=hooks, max_depth=max_depth)
+    cc = {}
+    for st in cp.cls_node.body:
+        if isinstance(st, ast.Assign) and len(st.targets) == 1 and isinstance(st.targets[0], ast.Name):
+            cc[st.targets[0].id] = st.value
+        elif isinstance(st, ast.AnnAssign) and isinstance(st.target, ast.Name) and st.value is not None:
+            cc[st.target.id] = st.value
+    ev.class_consts = cc
+    mc = {}
+    for st in cp.module_tree.body:
+        if isinstance(st, ast.Assign) and len(st.targets) == 1 and isinstance(st.targets[0], ast.Name) and \
+                isinstance(st.value, (ast.Dict, ast.Tuple, ast.List, ast.Constant, ast.Call)):
+            mc[st.targets[0].id] = st.value
+    ev.module_consts = mc
+    return ev
